@@ -100,13 +100,35 @@ def _worker(job):
         mod = importlib.import_module(modname)
         acc = Acc(seed=seed)
         t0 = time.time()
-        mod.run_shard(params, tier, acc)
+        run_shard_guarded(mod, params, tier, acc)
         out = acc.export()
         out["idx"] = idx
         out["wall"] = time.time() - t0
         return out
     except BaseException:
         return dict(idx=idx, error=traceback.format_exc(), params=params)
+
+
+def run_shard_guarded(mod, params, tier, acc):
+    """Run one shard.  An exception that escapes from the code under test
+    (innermost frame inside the tree's rig package) in a place where the
+    harness expected success is an observation about rig, not a harness
+    crash: it becomes a violation whose replay re-runs the shard."""
+    try:
+        mod.run_shard(params, tier, acc)
+    except Exception as e:
+        tb = traceback.extract_tb(sys.exc_info()[2])
+        inner = tb[-1].filename if tb else ""
+        if not os.path.abspath(inner).startswith(
+                os.path.join(REPO, "rig") + os.sep):
+            raise
+        acc.violation(
+            dict(kind="uncaught_exception_in_rig", exc=type(e).__name__),
+            dict(_shard=params, _tier=tier),
+            "rig raised %s: %s where the harness expected the call to "
+            "succeed\n%s" % (type(e).__name__, e,
+                             "".join(traceback.format_list(tb[-3:]))),
+            size=0)
 
 
 def load_findings():
@@ -142,6 +164,12 @@ def write_replay(pid, modname, tier, v):
 def replay_case(mod, case):
     """Run one recorded case without the explorer.  Returns violations dict."""
     acc = Acc()
+    if isinstance(case, dict) and "_shard" in case:
+        run_shard_guarded(mod, case["_shard"], case.get("_tier", "quick"),
+                          acc)
+        # only the escaped exception is the subject of this replay
+        return {k: v for k, v in acc.violations.items()
+                if v["sig"].get("kind") == "uncaught_exception_in_rig"}
     mod.replay(case, acc)
     return acc.violations
 
